@@ -376,15 +376,25 @@ def run_nsteps(run, rng):
             if n != m:
                 bad_decimal.append({"t0": t0, "T": T, "dt": dt, "steps_run": n, "steps_expected": m})
         items.append((f"n{j}", term))
+        items.append((f"f{j}", f"ozeqb (nsteps_fixed {fme(t0)} {fme(T)} {fme(dt)}) (Some {zint(n)})"))
         metas.append({"t0": t0, "T": T, "dt": dt, "steps": n})
+        metas.append(None)
     run.sample({"kind": "nsteps", "t0": 0.0, "T": 0.3, "dt": 0.1, "steps_run_by_StateEvolution": real_nsteps(ev, 0.0, 0.3, 0.1)})
+    allres = {}
     for k in range(0, len(items), 1000):
         res, out = run.coq_bools(f"C16_nsteps_{k // 1000}.v", HEADER, items[k:k + 1000], timeout=900)
         if res is None:
             run.find(f"coq:C16_nsteps_{k // 1000}", "generated file does not compile", {"log": out[-1500:]}, concrete=False)
             continue
-        for (lab, _), meta in zip(items[k:k + 1000], metas[k:k + 1000]):
-            if not res[lab]:
+        allres.update(res)
+    code_ok = [lab for lab, _ in items if lab.startswith("n") and allres.get(lab) is True]
+    code_bad = [lab for lab, _ in items if lab.startswith("n") and allres.get(lab) is False]
+    if code_bad and all(allres.get("f" + lab[1:]) for lab in code_bad) and all(allres.get("f" + lab[1:]) for lab in code_ok):
+        # every triple agrees with the repaired model (round to nearest): /repo has been repaired
+        run.notes["implementation_follows_repaired_model"] = {"nsteps_fixed": len(code_bad) + len(code_ok)}
+    else:
+        for (lab, _), meta in zip(items, metas):
+            if lab in code_bad:
                 run.find(f"nsteps_model:{meta['t0']!r}:{meta['T']!r}:{meta['dt']!r}", "PrimFloat model of int((T - t0)/dt) disagrees with StateEvolution.execute", {"mechanism": "nsteps", **meta}, concrete=False)
     run.notes["nsteps_decimal_grid_truncated"] = {"count": len(bad_decimal), "of": sum(1 for t in triples if t[3] is not None), "examples": bad_decimal[:5]}
     # the property: T - t0 a multiple of dt  =>  that many steps.  Replay a truncated triple on the real evolution.
@@ -517,6 +527,8 @@ def run_rk(run, rng):
                 run.case(["rk", cls, str(dt), str(Hv)])
                 items.append((f"{cls}:{dt}:{Hv}",
                               f"gq_eqb ({model} gq_ring (gq_of {qlit(Hv)}) (gq_of {qlit(dt)}) (gq_of (1 # 1))) ({qlit(re_)}, {qlit(im_)})"))
+                items.append((f"fixed:{cls}:{dt}:{Hv}",
+                              f"gq_eqb ({model}_fixed gq_ring (gq_of {qlit(Hv)}) (gq_of {qlit(dt)}) (gq_of (1 # 1))) ({qlit(re_)}, {qlit(im_)})"))
         order = 4 if cls == "RungeKutta4" else 5
         # the property: the step agrees with exp(-i dt H) psi up to its stated order
         tay = taylor_poly(order)
@@ -535,9 +547,16 @@ def run_rk(run, rng):
     if res is None:
         run.find("coq:C16_rk", "generated file does not compile", {"log": out[-1500:]}, concrete=False)
         return
-    for lab, _ in items:
-        if not res[lab]:
-            run.find(f"rk_model:{lab}", "Runge-Kutta step of the real code differs from the model at a rational point", {"point": lab}, concrete=False)
+    for cls in ("RungeKutta4", "RungeKutta45"):
+        labs = [lab for lab, _ in items if lab.startswith(cls + ":")]
+        if not labs or all(res[lab] for lab in labs):
+            continue
+        if all(res["fixed:" + lab] for lab in labs):
+            run.notes.setdefault("implementation_follows_repaired_model", {})[cls] = "rk step equals the model with stages -i H s (repaired)"
+            continue
+        for lab in labs:
+            if not res[lab]:
+                run.find(f"rk_model:{lab}", "Runge-Kutta step of the real code differs from the model at a rational point", {"point": lab}, concrete=False)
 
 
 def rk_convergence_test(cls):
